@@ -48,6 +48,7 @@ func (e *Env) log(ev Ev) int {
 	if vrt.Aborting() {
 		return -1
 	}
+	ev.T = vrt.Now()
 	e.hist = append(e.hist, ev)
 	vrt.NoteEvent()
 	return len(e.hist) - 1
